@@ -150,7 +150,9 @@ def expected(form, sheet_names=None):
             if sim:
                 out.append(("sheet-misspelling", (key, sim), None))
     s = form.get("settings", {})
-    if "form_id" in s and "id_string" in s:
+    sh_head = sheets.get("settings", ([], []))[0]
+    if "form_id" in sh_head and "id_string" in sh_head:
+        # the trigger is the pair of column headers, whichever of the two cells is filled in
         out.append(("dup-id-headers", None, None))
     shead, srows = sheets.get("survey", ([], []))
     out += missing_translations(shead, SURVEY_TRANSLATABLE, "survey")
